@@ -147,12 +147,13 @@ def local_names(fn):
     return [n for n in names if n not in glob]
 
 
-def _canon_fn(fn):
+def _canon_fn(fn, sort_comm=True, copy_=True):
     """copy of fn with comparisons canonicalised (b<a for a>b, `not` pushed in) so that such spellings do not count as differences"""
-    from .au import canon
-    fn = copy.deepcopy(fn)
-    _strip_doc(fn)
-    fn.decorator_list = fn.decorator_list
+    from .au import canon as canon_
+    canon = lambda e: canon_(e, sort_comm=sort_comm)
+    if copy_:
+        fn = copy.deepcopy(fn)
+        _strip_doc(fn)
 
     class T(ast.NodeTransformer):
         def visit_If(self, n):
@@ -303,7 +304,7 @@ def scoped_rename(fn, mapper):
 
 def blind(fn):
     """(digest of the name-blind dump, {scope index: local names in order of first occurrence})"""
-    fn = _canon_fn(fn)
+    fn = _canon_fn(fn, sort_comm=False)        # shape first: the order in which names are met must not depend on how they are spelled
     order = {}
 
     def ph(idx, name):
@@ -312,6 +313,7 @@ def blind(fn):
             o.append(name)
         return 's%dv%d' % (idx, o.index(name))
     scoped_rename(fn, ph)
+    fn = _canon_fn(fn, sort_comm=True, copy_=False)      # operands of commutative comparisons sorted by their placeholders
     fn.name = 'f'
     d = ast.dump(fn, annotate_fields=False, include_attributes=False)
     return hashlib.sha1(d.encode()).hexdigest(), [order.get(i, []) for i in range(max(order) + 1)] if order else []
@@ -419,6 +421,10 @@ def stmt_blind(s, loc):
     """(digest, names in order of first occurrence) of one statement with the function's local names made anonymous"""
     from .au import canon
     s = copy.deepcopy(s)
+    try:
+        s = canon(s, sort_comm=False)       # shape first (`not a in b` is `a not in b`): names are numbered in the order the canonical shape shows them
+    except Exception:
+        pass
     order = []
     for n in ast.walk(s):
         if isinstance(n, ast.Name) and n.id in loc:
@@ -496,27 +502,33 @@ def vote_rename_webs(fn, r, stats, key):
     loc = set(local_names(work))
     cur = loc | {n.id for n in ast.walk(work) if isinstance(n, ast.Name)}
     new = [n for n in fn_scope_locals(work) if n.split(webs.MARK)[0] not in {x.split(webs.MARK)[0] for x in ref_webs}]
-    gone = [n for n in ref_webs if n not in cur and webs.MARK in n and n.split(webs.MARK)[0] in cur]
-    if not new or not gone:
+    # webs are numbered in order of appearance, so WHICH reference web is missing cannot be read off the numbers: only how many of each name
+    base_of = lambda n: n.split(webs.MARK)[0]
+    ref_count, cur_count = {}, {}
+    for n in ref_webs:
+        ref_count[base_of(n)] = ref_count.get(base_of(n), 0) + 1
+    for n in {x for x in cur if base_of(x) in ref_count}:
+        cur_count[base_of(n)] = cur_count.get(base_of(n), 0) + 1
+    room = {b: ref_count[b] - cur_count.get(b, 0) for b in ref_count if b in cur_count and ref_count[b] > cur_count.get(b, 0) and ref_count[b] > 1}
+    if not new or not room:
         return 0
     refst = {}
     for d, names in r.get('wstmts', []):
         refst.setdefault(d, []).append(names)
     votes = {}
     for st in statements(work):
-        # evidence = the DEFINING statement: `new = E` is, up to names, the reference statement that starts the missing web
+        # evidence = the DEFINING statement: `new = E` is, up to names, a reference statement that starts a web of that name
         if not (isinstance(st, ast.Assign) and len(st.targets) == 1 and isinstance(st.targets[0], ast.Name) and st.targets[0].id in new):
             continue
         d, names = stmt_blind(st, loc)
-        for rn in refst.get(d, []):
-            if len(rn) == len(names) and names and names[0] == st.targets[0].id and rn[0] in gone \
-                    and all(x == y or (x in new) for x, y in zip(names[1:], rn[1:])):
-                votes[(names[0], rn[0])] = votes.get((names[0], rn[0]), 0) + 1
-    mapping, used = {}, set()
+        for b in {base_of(rn[0]) for rn in refst.get(d, []) if len(rn) == len(names) and names and names[0] == st.targets[0].id and base_of(rn[0]) in room
+                  and all(x == y or (x in new) for x, y in zip(names[1:], rn[1:]))}:
+            votes[(names[0], b)] = votes.get((names[0], b), 0) + 1
+    mapping, used = {}, {}
     for (a, b), v in sorted(votes.items(), key=lambda kv: (-kv[1], kv[0])):
-        if v > 0 and a not in mapping and b not in used:
-            mapping[a] = b
-            used.add(b)
+        if v > 0 and a not in mapping and used.get(b, 0) < room[b]:
+            mapping[a] = '%s%sn%d' % (b, webs.MARK, used.get(b, 0))
+            used[b] = used.get(b, 0) + 1
     if not mapping:
         return 0
 
@@ -650,6 +662,11 @@ def reshape_conditionals(fn, r, stats, key):
                 # `X = e1` / `X = e2(X)` with X read once in e2, all of it free of effects  ==  `X = e2(e1)`
                 nx = stmts[i + 1]
                 x_ = s.targets[0].id
+                if isinstance(nx, ast.AugAssign) and isinstance(nx.op, ast.Add) and isinstance(nx.target, ast.Name) and nx.target.id == x_ \
+                        and isinstance(s.value, (ast.ListComp, ast.List, ast.Tuple, ast.Constant, ast.JoinedStr)) and not any(isinstance(n, ast.Name) and n.id == x_ for n in ast.walk(nx.value)):
+                    # `X = [fresh list]` / `X += e`  ==  `X = [fresh list] + e`  (nobody else holds the fresh list that += extends in place)
+                    nx = ast.copy_location(ast.Assign(targets=[ast.copy_location(ast.Name(id=x_, ctx=ast.Store()), nx.target)],
+                                                      value=ast.copy_location(ast.BinOp(left=ast.copy_location(ast.Name(id=x_, ctx=ast.Load()), nx.target), op=ast.Add(), right=nx.value), nx)), nx)
                 if isinstance(nx, ast.Assign) and len(nx.targets) == 1 and isinstance(nx.targets[0], ast.Name) and nx.targets[0].id == x_:
                     reads = [n for n in ast.walk(nx.value) if isinstance(n, ast.Name) and n.id == x_]
                     inner_scope = any(isinstance(n, (ast.Lambda, ast.ListComp, ast.SetComp, ast.DictComp, ast.GeneratorExp)) for n in ast.walk(nx.value))
@@ -661,7 +678,7 @@ def reshape_conditionals(fn, r, stats, key):
                         cand.value = _Sub().visit(cand.value)
                         ast.fix_missing_locations(cand)
                         if wanted(cand):
-                            swap([s, nx], [cand])
+                            swap([s, stmts[i + 1]], [cand])
                             out.append(cand)
                             changed[0] += 1
                             i += 2
@@ -1705,6 +1722,12 @@ class _Subst(ast.NodeTransformer):
             else:
                 args.append(a)
         n.args = args
+        # a lambda handed to the helper and called there: (lambda t: E)(x) with plain arguments is E[t := x]
+        f = n.func
+        if isinstance(f, ast.Lambda) and not n.keywords and not (f.args.vararg or f.args.kwarg or f.args.kwonlyargs or f.args.defaults or f.args.posonlyargs) \
+                and len(f.args.args) == len(n.args) and all(_simple(a) for a in n.args) \
+                and not any(isinstance(m, (ast.Lambda, ast.ListComp, ast.SetComp, ast.DictComp, ast.GeneratorExp, ast.NamedExpr)) for m in ast.walk(f.body)):
+            return ast.copy_location(_Subst(dict(zip([a.arg for a in f.args.args], n.args))).visit(copy.deepcopy(f.body)), n)
         return n
 
 
@@ -1728,7 +1751,10 @@ def _bind(h, call, is_method):
     params = [x.arg for x in a.args]
     if is_method:
         params = params[1:]
-    if any(isinstance(x, ast.Starred) for x in call.args) or any(k.arg is None for k in call.keywords):
+    if any(k.arg is None for k in call.keywords):
+        return None
+    # f(a, *rest) is bound only when *rest lands whole in the helper's own *vararg
+    if any(isinstance(x, ast.Starred) for x in call.args[:len(params)]) or (any(isinstance(x, ast.Starred) for x in call.args) and not a.vararg):
         return None
     env = {}
     pos = list(call.args)
@@ -1842,7 +1868,7 @@ def _expand(h, call, caller_locals, is_method, self_expr=None, allow=()):
                 continue
             binds.append(ast.Assign(targets=[ast.Name(id=p, ctx=ast.Store())], value=copy.deepcopy(v)))
             continue
-        if _simple(v) or spliced and all(_simple(e) for e in v.elts):
+        if _simple(v) or spliced and all(_simple(e.value if isinstance(e, ast.Starred) else e) for e in v.elts):
             sub[p] = v
             continue
         cnt, inloop = _use_count(body, p)
@@ -1866,7 +1892,51 @@ def _expand(h, call, caller_locals, is_method, self_expr=None, allow=()):
                 if isinstance(n, ast.Name) and n.id in ren:
                     n.id = ren[n.id]
     body = [_Subst(sub).visit(s) for s in body]
+    if any(isinstance(v, ast.Constant) for v in sub.values()):
+        body = _fold_constant_tests(body)          # a flag parameter bound to True / False / None selects one branch of the helper
     return binds, body
+
+
+def _fold_constant_tests(stmts):
+    """`if True: A else: B` -> A; `A if False else B` -> B; `not True` -> False; `None is None` -> True - only tests that are literally constant"""
+    def const_of(t):
+        if isinstance(t, ast.Constant):
+            return True, bool(t.value)
+        if isinstance(t, ast.UnaryOp) and isinstance(t.op, ast.Not):
+            k, v = const_of(t.operand)
+            return k, (not v) if k else None
+        if isinstance(t, ast.Compare) and len(t.ops) == 1 and isinstance(t.left, ast.Constant) and isinstance(t.comparators[0], ast.Constant) and isinstance(t.ops[0], (ast.Is, ast.IsNot)) \
+                and (t.left.value is None or isinstance(t.left.value, bool)) and (t.comparators[0].value is None or isinstance(t.comparators[0].value, bool)):
+            same = t.left.value is t.comparators[0].value
+            return True, same if isinstance(t.ops[0], ast.Is) else not same
+        return False, None
+
+    class E(ast.NodeTransformer):
+        def visit_IfExp(self, n):
+            self.generic_visit(n)
+            k, v = const_of(n.test)
+            return (n.body if v else n.orelse) if k else n
+
+    def blk(ss):
+        out = []
+        for s in ss:
+            s = E().visit(s)
+            for f in ('body', 'orelse', 'finalbody'):
+                v = getattr(s, f, None)
+                if isinstance(v, list) and v and isinstance(v[0], ast.stmt) and not isinstance(s, (ast.FunctionDef, ast.AsyncFunctionDef, ast.ClassDef)):
+                    setattr(s, f, blk(v))
+            if isinstance(s, ast.If):
+                k, v = const_of(s.test)
+                if k:
+                    taken = s.body if v else s.orelse
+                    out.extend(taken)
+                    if terminates(taken):
+                        break               # what followed the selected, leaving branch is unreachable
+                    continue
+            out.append(s)
+        return out
+    res = blk(stmts)
+    return res if res else [ast.Pass()]
 
 
 def _assignify(body, make):
